@@ -1434,6 +1434,13 @@ func (a *Activation) binop(ins *ssa.BinOp, st *State, rc *string) Val {
 			return scalar(t, c.Define(name, "Int", app("div", l.S, fmt.Sprint(int64(1)<<uint(n)))))
 		}
 	}
+	if ins.Op == token.XOR {
+		if n, ok := isNumeral(r.S); ok && n == 1 {
+			// x^1 flips the lowest bit: exact on 0 and 1 (the only values the AVL child index takes)
+			c.DeclFun("bit_xor", []string{"Int", "Int"}, "Int")
+			return scalar(t, c.Define(name, "Int", ite(eq(l.S, "0"), "1", ite(eq(l.S, "1"), "0", app("bit_xor", l.S, "1")))))
+		}
+	}
 	// other bit operations: uninterpreted (sound, imprecise)
 	fn := "bitop_" + sanitize(ins.Op.String())
 	fnName := map[token.Token]string{token.AND: "bit_and", token.OR: "bit_or", token.XOR: "bit_xor", token.SHL: "bit_shl", token.SHR: "bit_shr", token.AND_NOT: "bit_andnot"}[ins.Op]
